@@ -92,7 +92,8 @@ def gen_case(rng, tier, index):
         elif r < 0.28 and "lea_sym" in v:
             lines.append({"k": rng.choice(
                 [k for k in ("lea_sym", "mov_sym", "cmp_sym", "movi_sym",
-                             "addlo_sym", "ldrlo_sym", "lui_hi", "addiu_lo")
+                             "addlo_sym", "ldrlo_sym", "lui_hi", "addiu_lo",
+                             "ldr_lit", "ldrsw_lit")
                  if k in v] + ([k for k in v if k.startswith("v_")]
                                if fmt == "elf" and not c["intel"] else [])),
                 "t": target(False)})
